@@ -599,6 +599,11 @@ func TestVerifC05(t *testing.T) {
 		if err != nil {
 			t.Fatal(err)
 		}
+		if rp.Scenario == c05Multi2Name {
+			x := vs.Replay(t, c05Multi2Scenario(), rp.Choices)
+			fmt.Fprintf(os.Stdout, "REPLAY %s choices=%v\n%s\nverdict: key=%q %s\npanic=%s outcome=%s\n", rp.Scenario, rp.Choices, strings.Join(x.S.Log, "\n"), x.VioKey, x.VioDesc, x.Panic, x.Outcome)
+			return
+		}
 		if rp.Scenario == c05MultiName {
 			x := vs.Replay(t, c05MultiScenario(), rp.Choices)
 			fmt.Fprintf(os.Stdout, "REPLAY %s choices=%v\n%s\nverdict: key=%q %s\npanic=%s outcome=%s\n", rp.Scenario, rp.Choices, strings.Join(x.S.Log, "\n"), x.VioKey, x.VioDesc, x.Panic, x.Outcome)
@@ -652,6 +657,8 @@ func TestVerifC05(t *testing.T) {
 			b = 2
 		}
 		bounds[c05MultiName] = b
+		bounds[c05Multi2Name] = b
+		vs.Explore(t, c05Multi2Scenario(), vs.Config{MaxBound: b, Deadline: time.Now().Add(time.Until(vrep.Deadline()) / 2), ShardI: si, ShardN: sn, Property: "C05"}, r)
 		vs.Explore(t, c05MultiScenario(), vs.Config{MaxBound: b, Deadline: vrep.Deadline(), ShardI: si, ShardN: sn, Property: "C05"}, r)
 	}
 	r.Bounds["deviation_bound_per_scenario"] = bounds
